@@ -70,6 +70,13 @@ def op (w : W) (ws : List String) : String × W :=
     match g.toNat?, id.toNat?, kindOf k with
     | some g, some id, some k => w.gsend g { id := id, call := true, kind := k }
     | _, _, _ => ("bad-op", w)
+  | ["conc", workers, seed, actors, senders, msgs, sup, churn] =>
+    -- the scenario itself runs only on the implementation; its history follows in `hist` lines
+    match workers.toNat?, seed.toNat?, actors.toNat?, senders.toNat?, msgs.toNat? with
+    | some wk, some _, some a, some sd, some m =>
+      if 1 ≤ wk && wk ≤ 8 && 1 ≤ a && a ≤ 16 && 1 ≤ sd && sd ≤ 8 && m ≤ 2000 &&
+          (sup = "0" || sup = "1") && (churn = "0" || churn = "1") then ("ran", w) else ("bad-op", w)
+    | _, _, _, _, _ => ("bad-op", w)
   | "hist" :: rest => (History.judgeLine rest, w)
   | _ => ("bad-op", w)
 
